@@ -753,6 +753,90 @@ def check_alch2(c, case, r, ev, sp, cfg):
     return True
 
 
+# components of a +/-1 combination switched on and off at run time (cv colvar <name> cvcflags): at every step the total
+# force of the combination is the average, over the components active at that step, of the total forces of single-component
+# twins (same component, same coefficient, same atoms) -- the documented projection for orthogonal unit-coefficient combinations
+def cvcflags_case(rng, idx):
+    sysm = corpus.make_system(rng, natoms=30)
+    pool = list(range(1, 27))
+    # the flags of cvcflags follow the library's own order of the components (by keyword, then by appearance): the
+    # components are defined in that order
+    kinds = sorted(rng.sample(["distance", "distanceZ", "angle", "dihedral", "distanceXY"], rng.choice([2, 2, 3])))
+    comps = []
+    for ct in kinds:
+        o = {"axis": "axis"} if ct in ("distanceZ", "distanceXY") else {}
+        cc = corpus.COMPONENTS[ct](rng, sysm, pool, o)
+        cc["ctype"] = ct
+        comps.append((cc, rng.choice([1.0, -1.0]), None))
+    ex = ["outputTotalForce on"]
+    text = corpus.colvar_block("cv1", comps, ex) + "\n"
+    zero = "harmonic {\n  name z1\n  colvars cv1\n  centers 1.0\n  forceConstant 0.0\n}\n"
+    for i, cpt in enumerate(comps):
+        text += corpus.colvar_block("tw%d" % i, [cpt], ex) + "\n"
+        zero += "harmonic {\n  name zt%d\n  colvars tw%d\n  centers 1.0\n  forceConstant 0.0\n}\n" % (i, i)
+    n = len(comps)
+    # sequence of flag patterns (never all off), each followed by two steps with new random forces
+    pats = []
+    for _ in range(6):
+        while True:
+            p_ = [rng.choice([0, 1]) for _ in range(n)]
+            if any(p_):
+                break
+        pats.append(p_)
+    pats.append([1] * n)
+    steps = []
+    pos = sysm["pos"]
+    for p_ in pats:
+        for _ in range(2):
+            pos = [[x + rng.uniform(-0.1, 0.1) for x in q] for q in pos]
+            steps.append((p_, pos, [[rng.uniform(-4, 4) for _ in range(3)] for _ in pos]))
+    return dict(idx=idx, sysm=sysm, cfg=text + zero, n=n, pats=pats, steps=steps, kinds=kinds, temp=rng.choice([0.0, 300.0]),
+                tfm=rng.choice(["same", "prev"]))
+
+
+def cvcflags_scenario(case):
+    s = corpus.scenario_header(case["sysm"], tfmode=case["tfm"], extra="dt 1.0\ntemp %s" % fnum(case["temp"]))
+    s += "emit atoms off\nmodule\nconfig <<EOC\n" + case["cfg"] + "EOC\ninit\n"
+    last = None
+    for p_, pos, F in case["steps"]:
+        if p_ != last:
+            s += "script " + json.dumps(["cv", "colvar", "cv1", "cvcflags", " ".join(str(x) for x in p_)]) + "\n"
+            last = p_
+        s += corpus.pos_line(pos) + "\n" + corpus.fext_line(F) + "\nstep\n"
+    return s
+
+
+def check_cvcflags(c, case, r, ev, sp):
+    key = "cvcflags:%s:%s:%s" % ("+".join(sorted(case["kinds"])), case["tfm"], "T0" if case["temp"] == 0.0 else "T300")
+    cfgev = [e for e in ev if e.get("ev") in ("config", "script") and (e.get("rc") or e.get("err"))]
+    st = steps_of(ev)
+    if not r["complete"] or cfgev or len(st) != len(case["steps"]):
+        c.inconc("cvcflags case: %s" % (str(cfgev[0].get("errs") or cfgev[0].get("res"))[:200] if cfgev else r["err"][-200:]))
+        return False
+    nchk = 0
+    for i, (e, (p_, pos, F)) in enumerate(zip(st, case["steps"])):
+        # with previous-step forces the first step after a change of the active set mixes two sets: not judged
+        if case["tfm"] == "prev" and (i == 0 or case["steps"][i - 1][0] != p_):
+            continue
+        ft = e["cv"]["cv1"].get("ft")
+        tw = [e["cv"]["tw%d" % k].get("ft") for k in range(case["n"])]
+        if ft is None or any(t is None for t in tw):
+            c.inconc("cvcflags case: total force not reported")
+            return False
+        act = [k for k in range(case["n"]) if p_[k]]
+        exp = sum(fl(tw[k][0]) for k in act) / len(act)
+        got = fl(ft[0])
+        sc = sum(abs(fl(tw[k][0])) for k in act) + 1e-300
+        if abs(got - exp) > 1e-10 * sc:
+            viol(c, "cvcflags_total_force:" + key, "step %d, components active %s (request history %s): total force of the combination %.15g; average of the "
+                 "single-component twins' total forces %.15g (%s)" % (i, p_, [q for q in case["pats"]][:case["pats"].index(p_) + 1], got, exp,
+                                                                      [fl(tw[k][0]) for k in act]), [sp], payload={"config": case["cfg"]})
+            return False
+        nchk += 1
+    c.bump("cvcflags_total_force_checks", nchk)
+    return nchk > 0
+
+
 # ---------------------------------------------------------------------------------------------
 
 def run(tier, replay):
@@ -823,6 +907,12 @@ def run(tier, replay):
         s, cfg = alch_scenario(case, case["tfm"])
         return common.run_esim("plain", s, os.path.join(c.work, "alch%d" % case["idx"]), "A", timeout=120) + (cfg,)
 
+    ncf = 16 if tier == "quick" else 200
+    cfc = [cvcflags_case(c.rng.__class__(c.seed * 9176 + i), i) for i in range(ncf)]
+    for case, (r, ev, sp) in zip(cfc, common.pmap(lambda cs: common.run_esim("plain", cvcflags_scenario(cs), os.path.join(c.work, "cvf%d" % cs["idx"]), "F", timeout=120), cfc)):
+        c.count()
+        if check_cvcflags(c, case, r, ev, sp):
+            c.nontrivial("cvcflags|%s|%s|%s" % ("+".join(sorted(case["kinds"])), case["tfm"], case["temp"]))
     a2 = [alch2_case(c.rng, i) for i in range(nal)]
 
     def do_alch2(case):
